@@ -639,11 +639,11 @@ func main() {
 							switch v := vs.Values[i].(type) {
 							case *ast.CallExpr:
 								if id, ok := v.Fun.(*ast.Ident); ok && id.Name == "make" {
-									resets = append(resets, "clear("+n.Name+")")
+									resets = append(resets, "verifsim.ClearMap("+n.Name+")")
 								}
 							case *ast.CompositeLit:
 								if len(v.Elts) == 0 {
-									resets = append(resets, "clear("+n.Name+")")
+									resets = append(resets, "verifsim.ClearMap("+n.Name+")")
 								}
 							}
 						}
@@ -656,7 +656,7 @@ func main() {
 			src := "//go:build verif\n\npackage " + p.Name + "\n\nimport verifsim \"" + simPath + "\"\n\nfunc init() {\n"
 			for _, r := range resets {
 				if strings.HasPrefix(r, "SNAPSHOT ") {
-					src += "\tverifsim.RegisterReset(verifsim.Snapshot(&" + strings.TrimPrefix(r, "SNAPSHOT ") + "))\n"
+					src += "\tverifsim.RegisterReset(verifsim.DeepSnapshot(&" + strings.TrimPrefix(r, "SNAPSHOT ") + "))\n"
 					resetVars = append(resetVars, p.PkgPath+"."+r)
 				}
 			}
